@@ -106,9 +106,9 @@ def describe(c):
 
 def plans(tier):
     """(design-check configurations, behaviour configurations, walks)"""
-    full = dict(p_sizes=[0, 1, 4], p_offs=[0, 1, 2, 4], p_wl=[0, 1, 2, 4], p_rs=[0, 1, 2, 4, 8], p_cs=[0, 1, 2, 4, 8])
+    full = dict(p_sizes=[0, 1, 4], p_offs=[0, 1, 2, 4], p_wl=[0, 1, 2, 4], p_rs=[0, 1, 2, 4, 8], p_cs=[0, 2, 4])
     wide = dict(p_sizes=[0, 8], p_offs=[0, 1, 4], p_wl=[0, 1, 2, 4, 8], p_rs=[0, 1, 2, 4, 8], p_cs=[0, 2, 4, 8])
-    big = dict(p_sizes=[0, 12], p_offs=[0, 4, 8], p_wl=[0, 4], p_rs=[0, 4, 8, 12, 16], p_cs=[0, 4, 8, 12, 16])
+    big = dict(p_sizes=[0, 12], p_offs=[0, 4, 8], p_wl=[0, 4], p_rs=[0, 4, 12, 16], p_cs=[0, 4, 12, 16])
     if tier == "quick":
         checks = [
             dict(name="frames", mode="check", n=0, depth=3, allocs=2, nptrs=3, ids=4, sizes=[0, 2], offs=[1], wl=[0, 2],
@@ -118,18 +118,18 @@ def plans(tier):
         ]
         behaviours = [
             # frames and pointers: deep enough for pop + push + allocate under a dangling pointer
-            dict(name="frames", mode="cover", n=6, depth=3, allocs=2, nptrs=3, ids=4, sizes=[4], offs=[4], wl=[4],
+            dict(name="frames", mode="cover", n=6, depth=2, allocs=2, nptrs=3, ids=3, sizes=[4], offs=[4], wl=[4],
                  seeds=[1], rs=[], cs=[], **full),
             # alignment: pointers at offsets 1, 2, 4 into 8- and 12-byte allocations
             dict(name="align", mode="cover", n=3, depth=1, allocs=2, nptrs=3, ids=1, sizes=[8, 12], offs=[1, 2, 4], wl=[],
                  seeds=[1], rs=[], cs=[], **wide),
             # contents: 12/16-byte allocations, 4-byte writes at 0 and 8, copies of 12 and 16 bytes
-            dict(name="copies", mode="cover", n=5, depth=2, allocs=2, nptrs=3, ids=2, sizes=[12, 16], offs=[8], wl=[4],
+            dict(name="copies", mode="cover", n=5, depth=1, allocs=2, nptrs=3, ids=1, sizes=[12, 16], offs=[8], wl=[4],
                  seeds=[1], rs=[], cs=[], **big),
             dict(name="short", mode="all", n=3, depth=2, allocs=2, nptrs=3, ids=3, sizes=[0, 2], offs=[1], wl=[1, 2],
                  seeds=[1], rs=[1, 2], cs=[2], **full),
         ]
-        walks = [dict(name="walk", num=40, depth=14)]
+        walks = [dict(name="walk", num=24, depth=14)]
     else:
         checks = [
             dict(name="frames", mode="check", n=0, depth=3, allocs=2, nptrs=4, ids=4, sizes=[0, 2, 4], offs=[1, 2], wl=[0, 2],
@@ -165,50 +165,54 @@ def final_classes(case):
 
 
 def generate(tier, ev, info):
+    """All TLC runs of the S->I side, three at a time with two workers each (<= 6 TLC workers)."""
     checks, behaviours, walks = plans(tier)
     d = vlib.workdir(PID, "cfg")
-    # --- the design itself
-    info["design_check"] = []
+    jobs = []
     for c in checks:
         cfg = os.path.join(d, "evalmem_check_%s.cfg" % c["name"])
         write_cfg(cfg, c, properties=True)
-        r = vlib.run_tlc("MCEvalMem", cfg, workers=6, timeout=3000, heap="6g", coverage=False)
-        vlib.require_tlc_ok(r, "MCEvalMem design check %s" % c["name"])
-        if r.distinct < 100:
-            raise vlib.ToolError("MCEvalMem design check %s explored only %d states" % (c["name"], r.distinct))
-        ev.add_tlc(r)
-        info["design_check"].append({"bounds": describe(c), "distinct_states": r.distinct, "transitions": r.generated,
-                                     "wall_s": round(r.wall, 1)})
-    # --- behaviours with expected outcomes
-    cases = []
-    info["behaviours"] = []
+        jobs.append(("check", c, cfg, dict(workers=2, heap="6g")))
     for c in behaviours:
         cfg = os.path.join(d, "evalmem_%s_%s.cfg" % (c["mode"], c["name"]))
         write_cfg(cfg, c)
-        r = vlib.run_tlc("MCEvalMem", cfg, workers=6, timeout=3000, heap="8g", coverage=False)
-        vlib.require_tlc_ok(r, "MCEvalMem %s %s" % (c["mode"], c["name"]))
+        jobs.append(("emit", c, cfg, dict(workers=2, heap="8g")))
+    for w in walks:
+        c = dict(WALK_CFG, n=w["depth"], name=w["name"], num=w["num"])
+        cfg = os.path.join(d, "evalmem_sim_%s.cfg" % w["name"])
+        write_cfg(cfg, c)
+        jobs.append(("walk", c, cfg, dict(workers=1, heap="6g", simulate=w["num"], depth=w["depth"] + 1, tlc_seed=vlib.seed())))
+    from concurrent.futures import ThreadPoolExecutor
+    # longest first
+    order = sorted(range(len(jobs)), key=lambda i: 0 if jobs[i][0] == "check" else 1)
+    with ThreadPoolExecutor(max_workers=3) as ex:
+        futs = {i: ex.submit(vlib.run_tlc, "MCEvalMem", jobs[i][2], timeout=3000, coverage=False, **jobs[i][3]) for i in order}
+        results = [futs[i].result() for i in range(len(jobs))]
+    cases = []
+    info["design_check"] = []
+    info["behaviours"] = []
+    for (kind, c, cfg, _), r in zip(jobs, results):
+        if kind == "check":
+            vlib.require_tlc_ok(r, "MCEvalMem design check %s" % c["name"])
+            if r.distinct < 100:
+                raise vlib.ToolError("MCEvalMem design check %s explored only %d states" % (c["name"], r.distinct))
+            info["design_check"].append({"bounds": describe(c), "distinct_states": r.distinct, "transitions": r.generated,
+                                         "step_properties": STEP_PROPERTIES, "wall_s": round(r.wall, 1)})
+        elif kind == "emit":
+            vlib.require_tlc_ok(r, "MCEvalMem %s %s" % (c["mode"], c["name"]))
+            info["behaviours"].append({"bounds": describe(c), "distinct_states": r.distinct, "emitted": len(r.replay),
+                                       "wall_s": round(r.wall, 1)})
+        else:
+            if r.error or r.invariant_violated:
+                vlib.require_tlc_ok(r, "MCEvalMem simulate")
+            info["behaviours"].append({"bounds": "simulate num=%d depth=%d seed=%d %s" % (c["num"], c["n"], vlib.seed(), describe(c)),
+                                       "emitted": len(r.replay), "wall_s": round(r.wall, 1)})
         ev.add_tlc(r)
         for x in r.replay:
             x["cfg"] = c["name"]
         cases.extend(r.replay)
-        info["behaviours"].append({"bounds": describe(c), "distinct_states": r.distinct, "emitted": len(r.replay),
-                                   "wall_s": round(r.wall, 1)})
-        del r
-    for w in walks:
-        c = dict(WALK_CFG, n=w["depth"], name=w["name"])
-        cfg = os.path.join(d, "evalmem_sim_%s.cfg" % w["name"])
-        write_cfg(cfg, c)
-        r = vlib.run_tlc("MCEvalMem", cfg, workers=1, simulate=w["num"], depth=w["depth"] + 1, timeout=3000, heap="6g",
-                         tlc_seed=vlib.seed(), coverage=False)
-        if r.error or r.invariant_violated:
-            vlib.require_tlc_ok(r, "MCEvalMem simulate")
-        ev.add_tlc(r)
-        for x in r.replay:
-            x["cfg"] = "walk"
-        cases.extend(r.replay)
-        info["behaviours"].append({"bounds": "simulate num=%d depth=%d seed=%d %s" % (w["num"], w["depth"], vlib.seed(), describe(c)),
-                                   "emitted": len(r.replay), "wall_s": round(r.wall, 1)})
-        del r
+        r.replay = []
+        r.stdout = ""
     # --- anti-vacuity: every action as final operation, every situation class of the property statement
     classes = {}
     finals = {}
@@ -245,6 +249,11 @@ def signature(op, exp, got):
         gk = gk + "-with-other-value"
     return {"part": PART, "op": op.get("op", "?"), "kind_of_failure": "outcome-differs", "expected": exp.get("k", "?"),
             "got": gk, "cls": exp.get("why", "-")}
+
+
+def args_only(ops):
+    """what the harness gets: operation names and arguments, no expectation"""
+    return [{a: v for a, v in o.items() if a not in ("out", "tags")} for o in ops]
 
 
 def strip(case):
@@ -291,10 +300,9 @@ def compare(case, res, verd):
     return n
 
 
-def spec_to_impl(tier, ev, verd, info):
-    cases = generate(tier, ev, info)
+def replay_and_compare(cases, ev, verd, info):
     t0 = time.time()
-    results = vlib.run_batch(BIN, [{"ops": c["ops"]} for c in cases], extra=["replay"], nproc=8, stall=60, pid=PID, tag="mem_replay")
+    results = vlib.run_batch(BIN, [{"ops": args_only(c["ops"])} for c in cases], extra=["replay"], nproc=8, stall=60, pid=PID, tag="mem_replay")
     info["replay_wall_s"] = round(time.time() - t0, 1)
     differing = 0
     steps = 0
@@ -353,19 +361,22 @@ def validate_events(events, path, verd, info, ev):
             k += 1
         run_of.append(k)
     closed = set()
+    bad_runs = set()
     for m in sorted(mism, key=lambda m: m["line"]):
         run = run_of[m["line"] - 1]
+        bad_runs.add(run)
         if run in closed:
             continue
         e = m["ev"]
         sig = signature(e, m["expected"], e.get("out", {}))
-        sig["kind_of_failure"] = "outcome-differs"
         args = {a: v for a, v in e.items() if a != "out"}
         verd.report(sig, "evaluator memory, recorded history %s line %d (run %d) %s: roto::lir::Memory gave %s, EvalMem specifies %s" %
                     (os.path.basename(path), m["line"], run, json.dumps(args), json.dumps(e.get("out"))[:200], json.dumps(m["expected"])),
                     {"trace": path, "line": m["line"], "event": e, "expected": m["expected"]})
         if e["op"] not in READONLY:
             closed.add(run)
+    summ["runs"] = k + 1
+    summ["runs_with_mismatch"] = len(bad_runs)
     return len(mism) == 0, summ
 
 
@@ -410,16 +421,16 @@ def impl_to_spec(tier, ev, verd, info):
     accepted = 0
     from concurrent.futures import ThreadPoolExecutor
     with ThreadPoolExecutor(max_workers=4) as ex:
-        futs = [(n, ex.submit(validate_events, evs, path, verd, info, ev)) for (path, evs, n) in files]
-        for n, f in futs:
+        futs = [ex.submit(validate_events, evs, path, verd, info, ev) for (path, evs, n) in files]
+        for f in futs:
             ok, summ = f.result()
             if summ:
                 nev += summ["events"]
                 for k, v in summ["tally"].items():
                     tally[k] = tally.get(k, 0) + v
-            if ok:
-                accepted += n
-                ev.traces += n
+                # a run is accepted iff every one of its events had the specified outcome
+                accepted += summ["runs"] - summ["runs_with_mismatch"]
+                ev.traces += summ["runs"] - summ["runs_with_mismatch"]
     info["recorded_runs"] = nruns
     info["recorded_runs_accepted"] = accepted
     info["recorded_events_validated"] = nev
@@ -436,14 +447,43 @@ def impl_to_spec(tier, ev, verd, info):
 
 # ------------------------------------------------------------------------------------------ entry
 
+class _Buffered:
+    """collects what the I->S side (run in a thread next to the replay) wants to tell Verdicts / Evidence"""
+
+    def __init__(self):
+        self.reports, self.tlc, self.traces, self.impl_actions = [], [], 0, set()
+
+    def report(self, sig, desc, rep):
+        self.reports.append((sig, desc, rep))
+
+    def add_tlc(self, r):
+        self.tlc.append(r)
+
+    def flush(self, ev, verd):
+        for r in self.tlc:
+            ev.add_tlc(r)
+        ev.traces += self.traces
+        ev.impl_actions.update(self.impl_actions)
+        for x in self.reports:
+            verd.report(*x)
+
+
 def run_mem(tier, ev, verd):
     """Evaluator-memory part of C20.  ev: vlib.Evidence, verd: vlib.Verdicts of the caller (PID C20); the caller
     finishes both.  Raises vlib.ToolError for tool failures."""
     t0 = time.time()
     vlib.build_harness([BIN])
     info = {}
-    spec_to_impl(tier, ev, verd, info)
-    impl_to_spec(tier, ev, verd, info)
+    cases = generate(tier, ev, info)
+    info["generation_wall_s"] = round(time.time() - t0, 1)
+    # the replay (harness processes) and the recorder + trace validation (one TLC worker per file) side by side
+    from concurrent.futures import ThreadPoolExecutor
+    buf = _Buffered()
+    with ThreadPoolExecutor(max_workers=1) as ex:
+        fut = ex.submit(impl_to_spec, tier, buf, buf, info)
+        replay_and_compare(cases, ev, verd, info)
+        fut.result()
+    buf.flush(ev, verd)
     info["wall_s"] = round(time.time() - t0, 1)
     ev.extra[PART] = info
     ev.assumptions = list(ev.assumptions) + [
@@ -461,7 +501,7 @@ def replay_mem(path):
     verd = vlib.Verdicts(PID)
     if "case" in obj:
         case = obj["case"]
-        res = vlib.run_batch(BIN, [{"ops": case["ops"]}], extra=["replay"], nproc=1, pid=PID, tag="mem_replay1")
+        res = vlib.run_batch(BIN, [{"ops": args_only(case["ops"])}], extra=["replay"], nproc=1, pid=PID, tag="mem_replay1")
         compare(case, res[0], verd)
     elif "trace" in obj:
         events = vlib.read_ndjson(obj["trace"])
